@@ -15,7 +15,7 @@ import numpy as np
 
 from .common import Check, model_env
 from .stubs import ptr, sym_array
-from pyxsym.sym import s_and, s_or, s_not, s_implies, ite, is_sym, CFault
+from pyxsym.sym import s_and, s_or, s_not, s_implies, s_max, ite, is_sym, CFault
 from pyxsym.values import CVector, VecPtr
 
 REPLAY = ("replay_drivers.C06", "replay")
@@ -119,12 +119,15 @@ class _AnyPropensity:
 
     def __init__(self, c, j):
         self.c, self.j = c, j
+        self.values = {}          # mode -> the value returned last
 
     def get_stochastic_propensity(self, state, params, t):
-        return self.c.fresh_real("raw%d" % self.j)
+        self.values["stochastic"] = self.c.fresh_real("raw%d" % self.j)
+        return self.values["stochastic"]
 
     def get_stochastic_volume_propensity(self, state, params, V, t):
-        return self.c.fresh_real("rawv%d" % self.j)
+        self.values["stochastic_volume"] = self.c.fresh_real("rawv%d" % self.j)
+        return self.values["stochastic_volume"]
 
     def get_propensity(self, state, params, t):
         return self.c.fresh_real("rawd%d" % self.j)
@@ -133,7 +136,9 @@ class _AnyPropensity:
         return self.c.fresh_real("rawdv%d" % self.j)
 
 
-def safe_job(interp, c, case):
+def safe_job(interp, c, case, aspect="safety"):
+    """aspect = safety (C06: no firing without the full complement) | liveness (C01: with the full complement present the
+    safe interface passes the rate law's own value through unchanged)"""
     S_, R_, lo, hi = case
     S = interp.load("bioscrape.simulator")
     U = sym_array(c, "U", (S_, R_), "int", lo=lo, hi=hi)
@@ -163,6 +168,24 @@ def safe_job(interp, c, case):
             for i in range(S_):
                 # full complement: what the reaction removes now, and in total once its delayed part is applied
                 conds.append(s_implies(a > 0, s_and(x[i] + U[i, j] >= 0, x[i] + U[i, j] + D[i, j] >= 0)))
+            if aspect == "liveness":
+                raw = props[j].values.get(mode)
+                enough = s_and(*[x[i] >= s_max(-U[i, j], 0) + s_max(-D[i, j], 0) for i in range(S_)])
+                if raw is None:
+                    # the rate law was not even evaluated: the interface decided that a reactant is missing
+                    raw = None
+                    cond_ = s_not(enough)
+                else:
+                    cond_ = s_implies(s_and(enough, raw >= 0), a == raw)
+                if True:
+                    _report(c, cond_,
+                            "safe mode [%s]: when every species reaction %d consumes (now or after its delay) is present in full, its propensity "
+                            "is the rate law's own value" % (mode, j), "safe mode zeroes a reaction that has its reactants",
+                            rp=dict(kind="safe_block", S=S_, R=R_, mode=mode, rxn=j, liveness=True),
+                            syms=dict([("U_%d_%d" % (i_, j_), U[i_, j_]) for i_ in range(S_) for j_ in range(R_)]
+                                      + [("D_%d_%d" % (i_, j_), D[i_, j_]) for i_ in range(S_) for j_ in range(R_)]
+                                      + [("x_%d" % i_, x[i_]) for i_ in range(S_)] + [("V", V)]))
+                continue
             _report(c, s_and(*conds),
                     "safe mode [%s]: whatever the rate law returns, reaction %d gets a positive propensity only if every "
                     "species it consumes (immediately or after its delay) is present in full" % (mode, j),
